@@ -1,6 +1,7 @@
 (* C12 - after update, compare reports the rule as unchanged, and vice versa.  Statements only. *)
 From Coq Require Import String.
 From Verif Require Import Base.Str Base.Outcome Model.Update Proofs.UpdateProofs Proofs.RoundTripProofs.
+From Verif Require Import Model.RuleId Model.Renumber Model.Cli Model.CliInst Gen.Consts Proofs.CliProofs Proofs.CliOrderProofs Proofs.CliInstProofs Proofs.CliRoundTripProofs.
 From Verif Require Tie.Pin_RuleRxRegex_src Tie.Pin_SecRuleRegex_src Tie.Pin_lits_cmd_regex_update_updateRegex
   Tie.Pin_lits_cmd_regex_compare_readCurrentRegex Tie.Pin_lits_cmd_regex_compare_processRegexForCompare
   Tie.Pin_lits_cmd_regex_compare_performCompare.
@@ -68,3 +69,50 @@ Theorem C12_round_trip_example :
               read_current out $"942100" 0 = Ok $"(?i)a+""b".
 Proof. exact read_after_update_example. Qed.
 Print Assumptions C12_round_trip_example.
+
+(* ---------- whole command, on the tree model with the model of generate inside ---------- *)
+(* after a successful `regex update ARG`, `regex compare` of the same rule on the resulting tree
+   reports "unchanged": generate gives the same regex again (it never reads a rules file), the glob
+   finds the same rules file, and the reader returns what was written *)
+Theorem C12_compare_after_update_says_unchanged :
+  forall join cfg t arg t' r regex,
+  parse_rule_id parse_uint_bits arg = Some r ->
+  gen_in_tree join cfg t (d_assembly ++ [r_file r]) = Ok regex ->
+  writable_operand t (r_id r) (r_chain r) regex ->
+  cli_update_one join cfg t arg = (t', Success) ->
+  compare_rule (gen_in_tree join cfg) t' (r_id r) (r_chain r) (d_assembly ++ [r_file r]) = Ok (Some true).
+Proof.
+  intros join cfg t arg t' r regex Hp Hg Hw H.
+  exact (compare_after_update_one (gen_in_tree join cfg) (gen_in_tree_ignores_rules_files join cfg) _ _ _ _ _ _ Hp Hg Hw H).
+Qed.
+Print Assumptions C12_compare_after_update_says_unchanged.
+
+(* the same for every step of `update --all` *)
+Theorem C12_compare_after_update_step_says_unchanged :
+  forall join cfg t id k f t' regex,
+  ~ is_rules_file f -> gen_in_tree join cfg t f = Ok regex -> writable_operand t id k regex ->
+  process_rule (gen_in_tree join cfg) t id k f = Ok t' ->
+  compare_rule (gen_in_tree join cfg) t' id k f = Ok (Some true).
+Proof.
+  intros join cfg t id k f t' regex. exact (compare_after_process_rule (gen_in_tree join cfg) (gen_in_tree_ignores_rules_files join cfg) t id k f t' regex).
+Qed.
+Print Assumptions C12_compare_after_update_step_says_unchanged.
+
+(* vice versa: when compare says "unchanged", update rewrites the rule's line to what it read
+   (dropping only text after the line continuation, finding C11-line-tail) ... *)
+Theorem C12_update_when_compare_says_unchanged :
+  forall c id k regex cur, read_current c id k = Ok cur -> unchanged cur regex = true ->
+  exists i g1 g3 rest,
+    nth i (split_on 10 c) [] = g1 ++ regex ++ g3 ++ rest /\
+    update_contents c id k regex = Ok (join [10] (set_nth i (g1 ++ regex ++ g3) (split_on 10 c))).
+Proof. exact update_when_unchanged. Qed.
+Print Assumptions C12_update_when_compare_says_unchanged.
+
+(* ... and leaves the file byte-identical when the line ends with the continuation *)
+Theorem C12_update_when_unchanged_is_identity :
+  forall c id k regex cur, read_current c id k = Ok cur -> unchanged cur regex = true ->
+  (forall i g1 g2 g3 rest, locate (split_on 10 c) id k = Ok (Some i) ->
+     rx_match (nth i (split_on 10 c) []) = Some (g1, g2, g3, rest) -> rest = []) ->
+  update_contents c id k regex = Ok c.
+Proof. exact update_when_unchanged_is_identity. Qed.
+Print Assumptions C12_update_when_unchanged_is_identity.
